@@ -504,6 +504,14 @@ func mutateFixed(r *Rng, base []byte) ([]byte, string) {
 // ---------- running ----------
 
 func runC18(c Case, m *Model) (v Verdict) {
+	v = runC18Op(c, m)
+	if msg := retainCheck(); msg != "" {
+		v.Oracle = append(v.Oracle, msg+" (building / parsing one message must not disturb another)")
+	}
+	return
+}
+
+func runC18Op(c Case, m *Model) (v Verdict) {
 	toks := strings.Fields(c.Op)
 	f := fields(c.Op)
 	switch toks[0] {
@@ -599,6 +607,7 @@ func runGoToBuild(c Case, m *Model, f map[string]string) (v Verdict) {
 		v.Oracle = append(v.Oracle, "GoTo.SysEx panicked: "+p)
 		return
 	}
+	retain("mmc GoTo.SysEx", w)
 	if mf["w"] != hx(w) {
 		v.Mismatch = append(v.Mismatch, "GoTo.SysEx bytes: model "+mf["w"]+" impl "+hx(w))
 	}
@@ -623,6 +632,7 @@ func runMsgBuild(c Case, m *Model, f map[string]string) (v Verdict) {
 		v.Oracle = append(v.Oracle, "Message.SysEx panicked: "+p)
 		return
 	}
+	retain("mmc Message.SysEx", w)
 	if mf["w"] != hx(w) {
 		v.Mismatch = append(v.Mismatch, "Message.SysEx bytes: model "+mf["w"]+" impl "+hx(w))
 	}
@@ -711,6 +721,7 @@ func runRolandBuild(c Case, m *Model, f map[string]string) (v Verdict) {
 		v.Oracle = append(v.Oracle, "SysEx/Checksum panicked: "+p)
 		return
 	}
+	retain("sysex Manufacturer.SysEx", w)
 	if mf["w"] != hx(w) {
 		v.Mismatch = append(v.Mismatch, "SysEx bytes: model "+short(mf["w"])+" impl "+short(hx(w)))
 	}
